@@ -7,7 +7,7 @@ import itertools
 import random
 import re
 
-from .gen import Gen, PhasedGen, BigGen, POINTS
+from .gen import Gen, PhasedGen, BigGen, ScaleGen, POINTS
 from .poolsim import Sim, run_sim
 from .shrink import shrink
 from .util import subseed
@@ -64,6 +64,7 @@ UNSTEER = {
 QUICK_HRAND = 2000
 QUICK_PHASED = 3000
 QUICK_BIG = 400
+QUICK_HUGE = 120
 
 SWEEP_STEPS = {
     "C01": ["spawn2", "cancel_all"],
@@ -129,6 +130,8 @@ def units(prop, tier, seed):
         for tag in un:
             for i in range(QUICK_HRAND):
                 yield ("hrand", (tag, subseed(seed, prop, "hrand", tag, i)), next(order))
+        for i in range(QUICK_HUGE):
+            yield ("huge", subseed(seed, prop, "huge", i), next(order))
         for i in range(QUICK_BIG):
             yield ("big", subseed(seed, prop, "big", i), next(order))
         for i in range(QUICK_PHASED):
@@ -147,6 +150,8 @@ def units(prop, tier, seed):
             for _ in range(2):
                 yield ("big", subseed(seed, prop, "big", i), next(order))
                 i += 1
+            yield ("huge", subseed(seed, prop, "huge", i), next(order))
+            i += 1
             for tag in un:
                 for _ in range(8):
                     yield ("hrand", (tag, subseed(seed, prop, "hrand", tag, i)), next(order))
@@ -189,6 +194,17 @@ def exec_unit(prop, unit, agg):
         sim = Sim(run, {prop})
         sim.execute(g.next_step)
         _account(prop, sim, agg, order, "rand")
+    elif kind == "huge":
+        g = ScaleGen(arg, prop, True)
+        run = {"prop": prop, "seed": arg, "clean": True, "config": g.make_config(), "steps": [], "huge": g.template,
+               "max_handles": 400000, "probe": False}
+        sim = Sim(run, {prop})
+        sim.execute(g.next_step)
+        agg.stats["probe:huge_" + g.template] += 1
+        agg.stats["probe:huge_tasks_created"] += sum(len(pc.tasks) for pc in sim.pools)
+        if sim.hit_cap:
+            agg.stats["probe:huge_run_hit_handle_cap"] += 1
+        _account(prop, sim, agg, order, "huge", sample=False)
     elif kind == "big":
         g = BigGen(arg, prop, True)
         run = {"prop": prop, "seed": arg, "clean": True, "config": g.make_config(), "steps": [], "big": True, "max_handles": 60000}
